@@ -784,6 +784,10 @@ class DAGRunConcurrentManager(DAGRunManagerLike):
 
             if has_errors:
                 logger.debug('The subgraph should be stopped. There is an error in %s', name)
+
+                # Errors are kept as results only inside a OneOf subgraph. The failed node may be several steps away
+                # from the destination, so the one who waits for the result of the subgraph must be woken up here.
+                await self.__unlock_descendants(node_id)
                 return
 
             if not is_rec_result and not has_errors:
